@@ -251,6 +251,13 @@ func corrCase(c *h.Ctx, cs *rtCase) {
 				c.Fail("panic", "C02:panic:analyze", err.Error(), replay)
 				return
 			}
+			if real != model[i] && strings.HasPrefix(real, "(err") && strings.HasPrefix(model[i], "(err") {
+				// Both reject the text; they name different reasons (which of two applicable
+				// checks fires first).  Rejection is what the property can observe, so this
+				// is an agreement; the difference is kept as a statistic.
+				c.Stat("corr:analyze:agree-err-different-class")
+				break
+			}
 			if real != model[i] {
 				c.Fail("correspondence", "C02:corr:analyze", fmt.Sprintf("value %d: real %s, model %s; ast=%s", i, clip(real, 400), clip(model[i], 400), clip(astS[i], 300)), replay)
 				return
